@@ -45,7 +45,7 @@ class Report:
         self.vacuity = []
 
 
-def prove(contracts, registry, repo=None, timeout_ms=20000, statics=(), cvc5_all=False, lemmas=()):
+def prove(contracts, registry, repo=None, timeout_ms=20000, statics=(), cvc5_all=False, lemmas=(), brief=()):
     import hashlib
     import multiprocessing as mp
     from .solve import discharge_texts
@@ -86,7 +86,7 @@ def prove(contracts, registry, repo=None, timeout_ms=20000, statics=(), cvc5_all
             for c in contracts:
                 if c.name in merged:
                     reports.append(Report(merged[c.name]))
-    results = discharge_texts(items, timeout_ms=timeout_ms, cvc5_all=cvc5_all) if items else []
+    results = discharge_texts(items, timeout_ms=timeout_ms, cvc5_all=cvc5_all, brief=brief) if items else []
     # vacuity queries: `False` must not be provable; they are not counted as obligations
     kept = []
     for d in results:
